@@ -213,6 +213,9 @@ def build(W, p):
 def run(ctx) -> Report:
     rep = Report("C11")
     prog = ctx.prog
+    # the memo-key clause first: it needs no interpretation, and what it finds is reported even if a later clause cannot follow the code
+    from ..memokey import check_memo_keys, memo_rule  # noqa: F401
+    memo_rule(ctx, rep, "C11-key", ["ufl.algorithms.signature", "ufl.functionspace", "ufl.domain", "ufl.form", "ufl.integral", "ufl.coefficient", "ufl.constant", "ufl.argument", "ufl.geometry", "ufl.constantvalue", "ufl.core.terminal", "ufl.core.multiindex", "ufl.variable"])
     sig_fn = prog.get_function("ufl.algorithms.signature", "compute_form_signature")
     W = FormWorld(ctx)
     sigs = {}
@@ -272,7 +275,6 @@ def run(ctx) -> Report:
     rep.assumptions = ["sha512 modelled by itself: distinct pre-hash data are taken to give distinct digests", "traversal drivers modelled (C19)", "finite elements are abstract objects identified by their repr / signature string"]
     from ..memokey import memo_rule
 
-    memo_rule(ctx, rep, "C11-key", ["ufl.algorithms.signature", "ufl.functionspace", "ufl.domain", "ufl.form", "ufl.integral", "ufl.coefficient", "ufl.constant", "ufl.argument", "ufl.geometry", "ufl.constantvalue", "ufl.core.terminal", "ufl.core.multiindex", "ufl.variable"])
     return rep
 
 
